@@ -474,7 +474,9 @@ impl Value {
             }
         };
         let mut new_shape = bytes.shape;
-        if let Some(last_dim) = new_shape.pop()
+        // Formats of size 1 are encoded without an additional axis
+        if elem_size != 1
+            && let Some(last_dim) = new_shape.pop()
             && last_dim != elem_size
         {
             return Err(env.error(format!(
